@@ -80,10 +80,14 @@ class DerivativeEvaluator(Evaluator):
         quads = list(map(lambda x: (x.error * differentiate(formula, x)) ** 2, sources))
 
         # Handle covariance between measurements
-        covariance_terms = DerivativeEvaluator.__find_cov_terms(formula, sources)
+        covariance_terms = list(DerivativeEvaluator.__find_cov_terms(formula, sources))
 
         # Calculate the result
         result_sums = sum(quads) + sum(covariance_terms)
+        if result_sums < 0 and -result_sums <= 1e-12 * (
+                sum(quads) + sum(abs(term) for term in covariance_terms)):
+            # fully (anti-)correlated contributions cancel exactly; what is left is rounding
+            result_sums = 0.0
         if result_sums < 0:  # pragma: no cover
             raise UndefinedActionError(
                 "The error propagated for the given operation is negative. This is likely "
